@@ -205,12 +205,15 @@ def _surrogates(ch):
     return chr(0xD800 + (o >> 10)) + chr(0xDC00 + (o & 0x3FF))
 
 
-def culprit(text, flags, indent, failing):
+def culprits(text, flags, indent, failing):
     """
-    which string of the document makes print / re-parse fail?  Neutralise the StringValue nodes one at a time
-    (value := "x") on a fresh parse; the first one whose neutralisation removes the failure is the culprit.
-    -> "<description|value>/<block|quoted>", "several-strings", "definition:<Kind>" (that definition alone fails),
-       "definitions-interact:<Kind>-after-<Kind>" (each definition alone is fine)
+    Which parts of the document make print / re-parse fail?  -> list of labels (one violation each):
+
+      * with every StringValue neutralised (value := "x") the failure persists: a non-string cause --
+        "definition:<Kind>" when that definition printed alone still fails, else
+        "definitions-interact:<Kind>-after-<Kind|type-system-definition>" for the first failing prefix;
+      * for every definition that fails when printed alone: the first string of it whose neutralisation
+        removes the failure -- "<description|value>/<block|quoted>" -- or "several-strings".
     """
     from py_gql.lang import parse, print_ast
     from mc.ref import visit as RV
@@ -228,32 +231,54 @@ def culprit(text, flags, indent, failing):
             return True
         return False
 
-    n = len([p for p in RV.positions(parse(text, **flags)) if p.kind == "StringValue"])
-    for k in range(n):
-        t = parse(text, **flags)
-        P = [p for p in RV.positions(t) if p.kind == "StringValue"][k]
-        form = "block" if P.node.block else "quoted"
+    def strings_of(node):
+        return [p for p in RV.positions(node) if p.kind == "StringValue"]
+
+    labels = []
+    t = parse(text, **flags)
+    ndefs = len(t.definitions)
+    for P in strings_of(t):
         P.node.value = "x"
-        if not fails(t):
-            return "%s/%s" % ("description" if P.slot == "description" else "value", form)
-    t = parse(text, **flags)
-    for P in RV.positions(t):
-        if P.kind == "StringValue":
+    if fails(t):
+        lab = None
+        for d in t.definitions:
+            if fails(type(t)(definitions=[d])):
+                lab = "definition:%s" % type(d).__name__
+                break
+        if lab is None:
+            for k in range(2, ndefs + 1):
+                if fails(type(t)(definitions=t.definitions[:k])):
+                    prev = type(t.definitions[k - 2]).__name__
+                    if prev not in ("OperationDefinition", "FragmentDefinition"):
+                        prev = "type-system-definition"
+                    lab = "definitions-interact:%s-after-%s" % (type(t.definitions[k - 1]).__name__, prev)
+                    break
+        labels.append(lab or "unexplained-without-strings")
+    for k in range(ndefs):
+        t = parse(text, **flags)
+        single = type(t)(definitions=[t.definitions[k]])
+        if not fails(single):
+            continue
+        n = len(strings_of(single))
+        found = None
+        for m in range(n):
+            t = parse(text, **flags)
+            single = type(t)(definitions=[t.definitions[k]])
+            P = strings_of(single)[m]
+            form = "block" if P.node.block else "quoted"
             P.node.value = "x"
-    if not fails(t):
-        return "several-strings"
-    # not a string: which definition?  each one alone, then growing prefixes of the document
-    t = parse(text, **flags)
-    for d in t.definitions:
-        if fails(type(t)(definitions=[d])):
-            return "definition:%s" % type(d).__name__
-    for k in range(2, len(t.definitions) + 1):
-        if fails(type(t)(definitions=t.definitions[:k])):
-            prev = type(t.definitions[k - 2]).__name__
-            if prev not in ("OperationDefinition", "FragmentDefinition"):
-                prev = "type-system-definition"
-            return "definitions-interact:%s-after-%s" % (type(t.definitions[k - 1]).__name__, prev)
-    return "unexplained"
+            if not fails(single):
+                found = "%s/%s" % ("description" if P.slot == "description" else "value", form)
+                break
+        if found is None:
+            t = parse(text, **flags)
+            single = type(t)(definitions=[t.definitions[k]])
+            for P in strings_of(single):
+                P.node.value = "x"
+            found = "several-strings" if not fails(single) else None
+        if found and found not in labels:
+            labels.append(found)
+    return labels or ["unexplained"]
 
 
 def first_diff(a, b, ctx="-"):
@@ -314,7 +339,7 @@ def roundtrip(text, flags, indent, st=None, collect=None):
     try:
         p1 = print_ast(t, indent=indent, include_descriptions=True)
     except Exception as e:  # noqa
-        return [("print-raises:%s/%s" % (type(e).__name__, culprit(text, flags, indent, "print")), "%r; %s" % (e, what))]
+        return [("print-raises:%s/%s" % (type(e).__name__, c), "%r; %s" % (e, what)) for c in culprits(text, flags, indent, "print")]
     if not isinstance(p1, str):
         return [("print-returns-non-string", "%r; %s" % (p1, what))]
     out = []
@@ -332,7 +357,7 @@ def roundtrip(text, flags, indent, st=None, collect=None):
     try:
         t2 = parse(p1, **flags)
     except GraphQLSyntaxError as e:
-        return out + [("reparse-fails/%s" % culprit(text, flags, indent, "reparse"), "%s on printed %r; %s" % (type(e).__name__, p1, what))]
+        return out + [("reparse-fails/%s" % c, "%s on printed %r; %s" % (type(e).__name__, p1, what)) for c in culprits(text, flags, indent, "reparse")]
     except Exception as e:  # noqa
         return out + [("crash:reparse:%s" % type(e).__name__, "%r on printed %r; %s" % (e, p1, what))]
     if st is not None:
